@@ -387,6 +387,18 @@ def lean_stage(ctx, cfg):
             if ok and not failed:
                 with open(cache, "w") as fh:
                     json.dump(res, fh)
+        # this run's own copy of the driver, taken while the lock is held: another check (or a build started by hand)
+        # may relink lean/.lake/build/bin/gnmi_model while this one is still reading from it
+        global _MODEL_BIN
+        src = os.path.join(LEAN, ".lake", "build", "bin", "gnmi_model")
+        if os.path.exists(src):
+            try:
+                os.makedirs(ctx.scratch, exist_ok=True)
+                dst = os.path.join(ctx.scratch, "gnmi_model")
+                shutil.copy2(src, dst)
+                _MODEL_BIN = dst
+            except OSError:
+                _MODEL_BIN = None
     if regen_err:
         ctx.problems.append(("build", regen_err, None))
     if not res["build_ok"]:
@@ -470,7 +482,12 @@ def run_lines(binpath, lines, timeout=None, env=None):
     return r.stdout.split("\n")[:len(lines)], r
 
 
+_MODEL_BIN = None
+
+
 def model_bin():
+    if _MODEL_BIN and os.path.exists(_MODEL_BIN):
+        return _MODEL_BIN
     return os.path.join(LEAN, ".lake", "build", "bin", "gnmi_model")
 
 
